@@ -807,7 +807,14 @@ def flag_cases(draw):
     forms = [draw(st.sampled_from(FORMS)) for _ in names] if hostile else None
     read = None
     if hostile and draw(st.integers(0, 3)) == 0:
-        read = draw(st.sampled_from(names))     # T(FlagValue("<read>")) instead
+        # T(FlagValue("<read>")) instead; mostly a flag whose value is plain data
+        eff = dict(defs)
+        eff.update(user)
+        free = [n for n in names if '${' not in eff[n]]
+        if free and draw(st.integers(0, 3)) > 0:
+            read = draw(st.sampled_from(free))
+        else:
+            read = draw(st.sampled_from(names))
     return ('flag', defs, user, use, forms, read)
 
 
